@@ -113,9 +113,11 @@ META.update({
         "text": "Proof: the setter's value is CRC-32(all preceding bytes with the final header length) xor 0x5354554e; "
                 "the checker accepts iff the first FINGERPRINT has a 4-byte value equal to that CRC over everything "
                 "before the last 8 raw bytes; add-then-check succeeds at the receiver. CRC-32 is a bit-serial Lean "
-                "spec tied to hash/crc32 by the correspondence. The single-bit/burst detection sentence is decided by "
-                "the implementation-side predicate over exhaustive single-bit flips and random <=32-bit bursts "
-                "(theorem in progress, see DESIGN).",
+                "spec tied to hash/crc32 by the correspondence. Burst detection is PROVED from first principles: the LFSR "
+                "step is linear and injective, and two messages that differ only inside a window of <= 32 consecutive "
+                "bits (CRC order; includes every single-bit flip) never have the same CRC-32 (crc32_burst); at message "
+                "level a corruption confined to the covered bytes or to the value fails the check. The implementation-"
+                "side predicate re-checks it on exhaustive single-bit flips and random bursts.",
         "note": PROOF_NOTE,
         "technique": "Lean 4 theorems over a bit-serial CRC-32 spec + exhaustive bit-flip correspondence",
     },
@@ -202,6 +204,19 @@ META.update({
     },
 })
 
+META.update({
+    "C14": {
+        "text": "Proof (partial by nature): for any object whose every method is ONE atomic critical section applying the "
+                "sequential step (fixing return value and events), every concurrent execution is explained by the order "
+                "of the critical sections and that order respects real time (single_crit_linearizable); with C13 exactly "
+                "one concurrent terminator wins. The premise is tied to agent.go by lock facts regenerated on every run. "
+                "Runtime half: 2..16 goroutines under -race, every history checked by a linearizability checker against "
+                "the sequential spec, watchdog for deadlock, re-entrant handlers.",
+        "note": PROOF_NOTE + "Go's memory model / mutex semantics / scheduler are not modelled; race and deadlock freedom are "
+                "observations of the -race run, not theorems. porcupine's search is a validation aid, not a proof.",
+        "technique": "Lean 4 linearizability theorem for single-critical-section objects + regenerated lock facts + -race linearizability checking",
+    },
+})
+
 NOT_APPLICABLE = {p: "check not built yet in this round (see DESIGN.md §4 for the plan)" for p in
-                  ["C14", 
-                   "C20"]}
+                  ["C20"]}
